@@ -29,6 +29,8 @@ func (e *Engine) havocLoop(fr *Frame, st *State, head *ssa.BasicBlock, phis []*s
 	}
 	seen := map[*ssa.Function]bool{}
 	e.collectWrites(fr, st, fr.fn, blocks, resolve, &targets, seen, 0)
+	e.symMode++
+	defer func() { e.symMode-- }()
 	for _, t := range targets {
 		switch {
 		case t.ghost != "":
@@ -198,7 +200,21 @@ func (e *Engine) collectWrites(fr *Frame, st *State, fn *ssa.Function, blocks ma
 				} else {
 					e.toolError("loop frame analysis: cannot resolve map in %s", funcKey(fn))
 				}
+			case *ssa.Next:
+				if !x.IsString {
+					*out = append(*out, writeTarget{ghost: "rangecount"})
+				}
 			case ssa.CallInstruction:
+				if g, isGo := x.(*ssa.Go); isGo {
+					if gf, ok := g.Common().Value.(*ssa.Function); ok {
+						if con := e.contracts[funcKey(gf)]; con != nil {
+							for _, gi := range con.GhostInc {
+								*out = append(*out, writeTarget{ghost: gi})
+							}
+						}
+					}
+					continue
+				}
 				e.collectCallWrites(fr, st, fn, x, resolve, addrOf, out, seen, depth)
 			}
 		}
@@ -381,6 +397,9 @@ func (e *Engine) collectCallWrites(fr *Frame, st *State, fn *ssa.Function, ci ss
 
 func (e *Engine) contractWrites(st *State, con *Contract, args []ssa.Value, argVal func(ssa.Value) (Value, bool), out *[]writeTarget) {
 	for _, g := range con.GhostInc {
+		*out = append(*out, writeTarget{ghost: g})
+	}
+	for g := range con.GhostSet {
 		*out = append(*out, writeTarget{ghost: g})
 	}
 	if len(con.Modifies) == 0 {
